@@ -7,7 +7,10 @@ FINISH = dict(level="model_checking",
                    "character-while-it-would-report-continue) over six sub-alphabets x flag sets, invariant "
                    "SplitInvisible; G: every text of the number/structure spaces with every single split on the real "
                    "parser; V: generated, mutated and hand-picked texts x all 1-splits + k-splits x 5 flag sets; "
-                   "TLC validates chunked outcome = outcome of one call on the same bytes")
+                   "TLC validates chunked outcome = outcome of one call on the same bytes; streams: TLC checks on the "
+                   "transcription that every 1-/2-cut of every text over a 9-byte alphabet (len<=5 quick, 6 thorough) leaves the "
+                   "sequence of documents of a clean stream unchanged (Tokener!Stream), V: generated streams of 2-5 documents "
+                   "resumed at the reported end position on the real parser, chunked vs unchunked vs each document alone")
 MC = ["C03_num.cfg", "C03_struct.cfg", "C03_esc.cfg", "C03_lit.cfg", "C03_cmt.cfg", "C03_utf8.cfg"]
 NUM = [91, 93, 44, 49, 45, 43, 46, 101, 0, 32, 73]
 STRUCT = [91, 93, 123, 125, 44, 58, 34, 97, 49, 32, 0]
@@ -29,6 +32,10 @@ def run(ck):
     for cfg in MC:
         ck.mc("MCTokSplit", cfg, workers=8, xmx="12g", timeout=1800)
     ck.mc_must_fail("MCTokSplit", "C03_asfound_numresume.cfg", workers=4, timeout=600)
+    # streams: one tokener resumed at the reported end position, every 1- and 2-cut of every text
+    ck.mc("MCTokStream", "C03_stream_t.cfg" if thorough else "C03_stream_q.cfg", workers=8, xmx="12g", timeout=1800)
+    ck.mc_must_fail("MCTokStream", "C03_stream_nonvacuous.cfg", workers=4, timeout=600)      # the space does contain streams of 3+ documents
+    ck.mc_must_fail("MCTokStream", "C03_asfound_stream_numresume.cfg", workers=4, timeout=600)
     exe = vlib.build("san", vlib.harness_sources(), "vh")
     # ---- G: the TLC spaces enumerated on the real parser, every single split
     jobs = [("num", 0, 3, 6 if not thorough else 7, NUM), ("num", 1, 3, 6 if not thorough else 7, NUM),
@@ -44,6 +51,19 @@ def run(ck):
     deaths = vlib.run_executions(exe, lambda st: ["tok", "split-drive", st, n], n, tp, timeout=1200)
     vlib.conformance(ck, "V:corpus-all-1-splits", "TraceTokSplit", "trace.cfg", tp, deaths, diag_of, min_events=n, timeout=1800,
                      split_every=500)
+
+
+    ns = 3000 if thorough else 400
+    tp = os.path.join(ck.dir, "s.ndjson")
+    deaths = vlib.run_executions(exe, lambda st: ["tok", "stream-drive", st, ns], ns, tp, timeout=1200)
+    vlib.conformance(ck, "V:streams-of-documents-resumed-at-the-reported-end", "TraceTokSplit", "trace.cfg", tp, deaths, diag_of_stream,
+                     min_events=ns, timeout=1800, split_every=500)
+
+
+def diag_of_stream(rec, ex):
+    txt = rec.get("text", [])
+    return {"op": rec.get("e"), "fl": rec.get("fl"), "cuts": rec.get("cuts"), "text": txt[:60], "len": len(txt), "clean": rec.get("clean"),
+            "ref": [(o.get("st"), o.get("end")) for o in rec.get("ref", [])], "got": [(o.get("st"), o.get("end")) for o in rec.get("got", [])]}
 
 
 def replay(path):
